@@ -497,10 +497,10 @@ MUTANTS += [
     M("jax flow keeps a compiled log_prob of the flow it had before fitting", "src/aspire/flows/jax/flows.py", "log_prob = self._flow.log_prob(x_prime)\n        x, log_abs_det_jacobian = self.inverse_rescale(x_prime)",
       "if getattr(self, \"_lp\", None) is None:\n            self._lp = self._flow.log_prob\n        log_prob = self._lp(x_prime)\n        x, log_abs_det_jacobian = self.inverse_rescale(x_prime)", "C10.stale"),
     M("pool map returns results in completion order", "src/aspire/utils.py", "self.original_log_likelihood, map_fn=self.pool.map", "self.original_log_likelihood, map_fn=lambda f, it: list(self.pool.imap_unordered(f, it))", "C10.pool"),
-    M("forward transform writes into its argument", _T, "x = copy_array(x, xp=self.xp)\n        x = self.xp.atleast_2d(x)\n        log_abs_det_jacobian = self.xp.zeros(len(x), device=self.device)\n        if self.periodic_parameters:",
-      "x = self.xp.atleast_2d(x)\n        log_abs_det_jacobian = self.xp.zeros(len(x), device=self.device)\n        if self.periodic_parameters:", "C10.own"),
-    M("inverse transform writes into its argument", _T, "x = copy_array(x, xp=self.xp)\n        x = self.xp.atleast_2d(x)\n        log_abs_det_jacobian = self.xp.zeros(len(x), device=self.device)\n        if self.affine_transform:",
-      "x = self.xp.atleast_2d(x)\n        log_abs_det_jacobian = self.xp.zeros(len(x), device=self.device)\n        if self.affine_transform:", "C10.own"),
+    M("forward transform writes into its argument", _T, "x = copy_array(x, xp=self.xp)\n        x = self.xp.atleast_2d(x)\n        log_abs_det_jacobian = self.xp.zeros(\n            len(x), device=self.device, dtype=self.dtype\n        )\n        if self.periodic_parameters:",
+      "x = self.xp.atleast_2d(x)\n        log_abs_det_jacobian = self.xp.zeros(\n            len(x), device=self.device, dtype=self.dtype\n        )\n        if self.periodic_parameters:", "C10.own"),
+    M("inverse transform writes into its argument", _T, "x = copy_array(x, xp=self.xp)\n        x = self.xp.atleast_2d(x)\n        log_abs_det_jacobian = self.xp.zeros(\n            len(x), device=self.device, dtype=self.dtype\n        )\n        if self.affine_transform:",
+      "x = self.xp.atleast_2d(x)\n        log_abs_det_jacobian = self.xp.zeros(\n            len(x), device=self.device, dtype=self.dtype\n        )\n        if self.affine_transform:", "C10.own"),
     M("fit writes into the fitting data", _T, "x = copy_array(x, xp=self.xp)\n        if self.periodic_parameters:", "if self.periodic_parameters:", "C10.own"),
     M("fit copies only without periodic parameters", _T, "x = copy_array(x, xp=self.xp)\n        if self.periodic_parameters:", "if not self.periodic_parameters:\n            x = copy_array(x, xp=self.xp)\n        if self.periodic_parameters:", "C10.own"),
     M("private helper writes into an array its caller did not copy", _T, "y, log_j_bounded = self._bounded_transform.forward(\n                x[..., self.bounded_mask]\n            )\n            x = update_at_indices(x, (slice(None), self.bounded_mask), y)\n            log_abs_det_jacobian += log_j_bounded", "x, log_j_bounded = self._put_bounded(x, self._bounded_transform.forward)\n            log_abs_det_jacobian += log_j_bounded",
@@ -516,8 +516,8 @@ NEUTRALS = [
       more=[("def __enter__(self):\n        self.original_log_likelihood", "def _ordered_map(self, fn, iterable):\n        return list(self.pool.imap(fn, iterable))\n\n    def __enter__(self):\n        self.original_log_likelihood")]),
     M("checkpoint dataset through a local", "src/aspire/utils.py", "target[dsetname][:] = bdata", "dset = target[dsetname]\n    dset[:] = bdata"),
     M("enlargement whenever a final size is requested", "src/aspire/samplers/smc/base.py", "if n_final_samples is not None and len(samples.x) != n_final_samples:", "if n_final_samples is not None:"),
-    M("forward copies through a temporary", _T, "x = copy_array(x, xp=self.xp)\n        x = self.xp.atleast_2d(x)\n        log_abs_det_jacobian = self.xp.zeros(len(x), device=self.device)\n        if self.periodic_parameters:",
-      "x2 = copy_array(x, xp=self.xp)\n        x = self.xp.atleast_2d(x2)\n        log_abs_det_jacobian = self.xp.zeros(len(x), device=self.device)\n        if self.periodic_parameters:"),
+    M("forward copies through a temporary", _T, "x = copy_array(x, xp=self.xp)\n        x = self.xp.atleast_2d(x)\n        log_abs_det_jacobian = self.xp.zeros(\n            len(x), device=self.device, dtype=self.dtype\n        )\n        if self.periodic_parameters:",
+      "x2 = copy_array(x, xp=self.xp)\n        x = self.xp.atleast_2d(x2)\n        log_abs_det_jacobian = self.xp.zeros(\n            len(x), device=self.device, dtype=self.dtype\n        )\n        if self.periodic_parameters:"),
     M("minipcn: log_q via temporary", _MP, "samples.log_q = samples.array_to_namespace(\n            self.prior_flow.log_prob(samples.x)\n        )", "lq = self.prior_flow.log_prob(samples.x)\n        samples.log_q = samples.array_to_namespace(lq)"),
     M("initial: guard mirrored", _MC, "while n_samples_drawn < n_samples:", "while n_samples > n_samples_drawn:"),
     M("initial: counter explicit", _MC, "n_samples_drawn += n_valid", "n_samples_drawn = n_valid + n_samples_drawn"),
